@@ -172,7 +172,7 @@ pub fn decode_aggregate_bytes(b: &[u8]) -> Result<AggregateSignature<D>, String>
 }
 
 pub fn aggregate_to_cand(a: &AggregateSignature<D>) -> Option<Cand> {
-    Cand::from_json(&serde_json::to_value(a).ok()?)
+    Cand::from_json(&mc_core::catch(|| serde_json::to_value(a).ok()).ok()??)
 }
 
 pub fn decode_single_json(s: &CSig) -> Result<SingleSignature, String> {
@@ -293,42 +293,92 @@ pub struct World {
     /// Merkle root the aggregate key commits to (read from the key's JSON form)
     pub root: Vec<u8>,
     pub view: View,
+    /// observations made while building (aggregate key encoding anomalies)
+    pub notes: Vec<String>,
 }
 
 impl World {
-    pub fn build(cfg: &Cfg) -> World {
+    /// Builds the world on the real code. Every failure of the real API on this honest path
+    /// (registration, closing, signer creation, aggregate key encoding) and every panic is
+    /// returned as `Err`: it is behaviour of the code under test, not of the harness.
+    pub fn try_build(cfg: &Cfg) -> Result<World, String> {
         let params = Parameters { m: cfg.m, k: cfg.k, phi_f: cfg.phi_f };
-        let mut rng = ChaCha20Rng::from_seed([cfg.seed; 32]);
-        let inits: Vec<Initializer> = cfg.stakes.iter().map(|s| Initializer::new(params, *s, &mut rng)).collect();
+        let stakes = cfg.stakes.clone();
+        let seed = cfg.seed;
+        let inits = mc_core::catch(move || {
+            let mut rng = ChaCha20Rng::from_seed([seed; 32]);
+            stakes.iter().map(|s| Initializer::new(params, *s, &mut rng)).collect::<Vec<Initializer>>()
+        })
+        .map_err(|p| format!("panic in Initializer::new: {p}"))?;
+        World::try_from_inits(cfg, inits)
+    }
+
+    /// a fresh registrable key (for registrations that differ from another one in one key)
+    pub fn fresh_initializer(cfg: &Cfg, stake: u64, salt: u8) -> Result<Initializer, String> {
+        let params = Parameters { m: cfg.m, k: cfg.k, phi_f: cfg.phi_f };
+        mc_core::catch(move || {
+            let mut rng = ChaCha20Rng::from_seed([salt ^ 0x5a; 32]);
+            // skip ahead so that the key differs from every key of the worlds built from small seeds
+            for _ in 0..3 {
+                let _ = Initializer::new(params, stake, &mut rng);
+            }
+            Initializer::new(params, stake, &mut rng)
+        })
+        .map_err(|p| format!("panic in Initializer::new: {p}"))
+    }
+
+    /// `cfg.stakes` must be the stakes of `inits`
+    pub fn try_from_inits(cfg: &Cfg, inits: Vec<Initializer>) -> Result<World, String> {
+        let cfg2 = cfg.clone();
+        match mc_core::catch(move || World::from_inits_inner(&cfg2, inits)) {
+            Ok(r) => r,
+            Err(p) => Err(format!("panic: {p} at {}", mc_core::last_panic_location())),
+        }
+    }
+
+    fn from_inits_inner(cfg: &Cfg, inits: Vec<Initializer>) -> Result<World, String> {
+        let params = Parameters { m: cfg.m, k: cfg.k, phi_f: cfg.phi_f };
+        let mut notes = vec![];
         let mut kr = KeyRegistration::initialize();
         for i in &inits {
-            kr.register_by_entry(&RegistrationEntry::try_from(i.clone()).expect("registration entry"))
-                .expect("register");
+            let entry = RegistrationEntry::try_from(i.clone()).map_err(|e| format!("RegistrationEntry of an honest initializer: {e:#}"))?;
+            kr.register_by_entry(&entry).map_err(|e| format!("register_by_entry of an honest party: {e:#}"))?;
         }
-        let closed = kr.close_registration(&params).expect("close registration");
-        let signers: Vec<Signer<D>> =
-            inits.iter().map(|i| i.clone().try_create_signer::<D>(&closed).expect("signer")).collect();
+        let closed = kr.close_registration(&params).map_err(|e| format!("close_registration: {e:#}"))?;
+        let mut signers: Vec<Signer<D>> = vec![];
+        for i in &inits {
+            signers.push(i.clone().try_create_signer::<D>(&closed).map_err(|e| format!("try_create_signer of a registered party: {e:#}"))?);
+        }
         let clerk = Clerk::<D>::new_clerk_from_closed_key_registration(&params, &closed);
         let avk0 = clerk.compute_aggregate_verification_key();
         let conc = avk0.to_concatenation_aggregate_verification_key();
-        let bytes = conc.to_bytes().expect("avk to_bytes");
-        let conc2 = AggregateVerificationKeyForConcatenation::<D>::from_bytes(&bytes).expect("avk from_bytes");
-        assert!(&conc2 == conc, "aggregate key does not survive its own encoding");
-        let avk = AggregateVerificationKey::<D>::new(conc2);
-        let j = serde_json::to_value(conc).expect("avk json");
-        let root = json_bytes(&j["mt_commitment"]["root"]).expect("root in avk json");
+        // the key the verifier holds is the one that travelled; a key that does not survive the trip is
+        // recorded, and verification goes on with whatever the decoder returned (or the original)
+        let avk = match conc.to_bytes().map_err(|e| format!("{e:#}")).and_then(|b| AggregateVerificationKeyForConcatenation::<D>::from_bytes(&b).map_err(|e| format!("{e:#}"))) {
+            Ok(conc2) => {
+                if &conc2 != conc {
+                    notes.push("aggregate key changed by its own byte encoding round trip".to_string());
+                }
+                AggregateVerificationKey::<D>::new(conc2)
+            }
+            Err(e) => {
+                notes.push(format!("aggregate key does not survive its own byte encoding: {e}"));
+                avk0.clone()
+            }
+        };
+        let j = serde_json::to_value(conc).map_err(|e| format!("aggregate key has no JSON form: {e}"))?;
+        let root = json_bytes(&j["mt_commitment"]["root"]).ok_or("no Merkle root in the JSON form of the aggregate key")?;
         let parties: Vec<Party> = inits
             .iter()
             .zip(signers.iter())
-            .zip(cfg.stakes.iter())
-            .map(|((init, signer), stake)| Party {
+            .map(|(init, signer)| Party {
                 init: init.clone(),
                 vk: init.get_verification_key_proof_of_possession_for_concatenation().vk.to_bytes().to_vec(),
-                stake: *stake,
+                stake: init.stake,
                 slot: signer.signer_index,
             })
             .collect();
-        let total = cfg.stakes.iter().sum();
+        let total = parties.iter().map(|p| p.stake).sum();
         let view = View {
             label: cfg.label(),
             m: cfg.m,
@@ -338,7 +388,7 @@ impl World {
             root: root.clone(),
             parties: parties.iter().map(|p| (p.vk.clone(), p.stake, p.slot)).collect(),
         };
-        World { cfg: cfg.clone(), params, parties, total, closed, signers, clerk, avk, root, view }
+        Ok(World { cfg: cfg.clone(), params, parties, total, closed, signers, clerk, avk, root, view, notes })
     }
 
     /// what is actually signed and mapped for `msg` under this aggregate key
@@ -354,8 +404,13 @@ impl World {
 
     /// honest single signature of party `i` (None: the party won no index)
     pub fn honest(&self, i: usize, msg: &[u8]) -> Option<CSig> {
-        let s = self.signers[i].create_single_signature(msg).ok()?;
+        let s = mc_core::catch(|| self.signers[i].create_single_signature(msg).ok()).ok()??;
         single_to_csig(&s, &self.parties[i].vk, self.parties[i].stake)
+    }
+
+    /// the honest signatures as values of the real type (no wire trip)
+    pub fn honest_raw(&self, msg: &[u8]) -> Vec<SingleSignature> {
+        (0..self.signers.len()).filter_map(|i| mc_core::catch(|| self.signers[i].create_single_signature(msg).ok()).ok().flatten()).collect()
     }
 
     /// a BLS signature by party `i`'s key over arbitrary bytes
